@@ -122,7 +122,7 @@ fn worker_main(shared: SharedRef) {
                     }
                     s.sites[me] = Site::Name("pool.idle");
                 });
-                shuttle::thread::park();
+                sim::park();
             }
         }
     }
@@ -168,7 +168,7 @@ impl ThreadPool {
                 hb::acquire_token(&end);
                 return r;
             }
-            shuttle::thread::park();
+            sim::park();
         }
     }
 }
@@ -267,6 +267,6 @@ where
             hb::acquire_token(&end);
             return (ra, rb);
         }
-        shuttle::thread::park();
+        sim::park();
     }
 }
